@@ -29,10 +29,12 @@ from .. import gen, leanio
 PROP = "C02"
 LEAN = {"module": "Pygom.Props.C02", "extra_modules": ["Pygom.Lemmas.Integrate"],
         "required": ["Pygom.C02.rows_correct", "Pygom.C02.rows_aliased", "Pygom.C02.integrate_rows",
-                     "Pygom.C02.integrate2_rows", "Pygom.C02.solve_determ_rows", "Pygom.C02.method_dispatch"]}
-BUDGET = {"quick": {"fake": 240, "models": 40, "catalogue": 9, "radau_every": 2, "cython": 1,
+                     "Pygom.C02.integrate2_rows", "Pygom.C02.solve_determ_rows", "Pygom.C02.method_dispatch",
+                     "Pygom.C02.session_is_pure", "Pygom.C02.earlier_results_kept", "Pygom.C02.solve_reads_current",
+                     "Pygom.C02.solve2_reads_current", "Pygom.C02.stale_grid_counterexample"]}
+BUDGET = {"quick": {"fake": 240, "fake_sessions": 120, "models": 40, "catalogue": 9, "radau_every": 2, "cython": 1,
                     "history": 48, "siblings": 30, "forms": 24, "entries_per_session": 5},
-          "thorough": {"fake": 4000, "models": 1500, "catalogue": 36, "radau_every": 4, "cython": 8,
+          "thorough": {"fake": 4000, "fake_sessions": 2000, "models": 1500, "catalogue": 36, "radau_every": 4, "cython": 8,
                        "history": 240, "siblings": 160, "forms": 100, "entries_per_session": 5}}
 RULE = ("fake-integrator cases: random entry point (integrateFuncJac, integrate2, _integrate2, integrate, solve_determ), "
         "1-4 states, dyadic x0/c/t0, grid kind (uniform, non-uniform incl. repeated/unsorted times, one point, scalar, empty, "
@@ -285,6 +287,8 @@ def make_cases(rng, tier, budget):
     cases = []
     for i in range(budget["fake"]):
         cases.append(gen_fake(random.Random(rng.getrandbits(64))))
+    for i in range(budget.get("fake_sessions", 0)):
+        cases.append(gen_fake_session(random.Random(rng.getrandbits(64))))
     ncat = len(catalogue())
     off = rng.randrange(ncat)
     for i in range(budget["catalogue"]):
@@ -523,6 +527,131 @@ def run_fake(case):
     nreq = len(case["t"].get("list", [0])) if "list" in case["t"] else 1
     return {"nontrivial": nreq >= 1 and not mism, "mismatches": mism, "violations": viol, "tags": tags,
             "sample": {k: case[k] for k in ("entry", "x0", "c", "t0", "t", "method", "full_output", "includeOrigin", "aliased")}}
+
+
+# ------------------------------------------------------------------------------------------------
+# tie (i'): a SESSION on one instance against the fake integrator (exact)
+# The Lean `runOps` (Integrate.lean: `Inst`, `SOp`; theorems `session_is_pure`, `earlier_results_kept`,
+# `solve_reads_current`) threads `_x0`, `_t0`, `_odeTime`, `_odeSolution` through a list of assignments and solves.
+# The same list is applied to ONE fresh real model; every returned array is kept and read only at the end.
+# ------------------------------------------------------------------------------------------------
+def gen_fake_session(rng):
+    n = rng.randint(1, 3)
+    t0 = dyadic(rng, -2, 2, 4)
+    pool = []
+    for _ in range(rng.randint(1, 3)):
+        k = rng.randint(1, 5)
+        cur, ts = t0, []
+        for _ in range(k):
+            cur = cur + Fraction(rng.randint(0 if rng.random() < 0.1 else 1, 16), 8)
+            ts.append(cur)
+        pool.append({"list": [fr(v) for v in ts]})
+    pool.append({"scalar": fr(t0 + dyadic(rng, 0, 3))})
+
+    def targ():
+        r = rng.random()
+        if r < 0.04:
+            return {"t": {"list": []}, "container": rng.choice(["list", "tuple", "ndarray"])}
+        if r < 0.08:
+            return {"t": {"other": True}, "container": rng.choice(["str", "dict"])}
+        t = rng.choice(pool)        # few grids: the same one comes back after the instance was changed
+        return {"t": t, "container": rng.choice(["int_or_float", "np.float64"]) if "scalar" in t else rng.choice(["list", "tuple", "ndarray"])}
+    ops = []
+    for _ in range(rng.randint(4, 14)):
+        k = gen.wchoice(rng, [("setT0", 3), ("setX0", 3), ("setBoth", 2), ("integrate", 4), ("solve_determ", 2), ("integrate2", 4)])
+        if k == "setT0":
+            ops.append({"k": k, "t": fr(rng.choice([t0, dyadic(rng, -2, 2, 4)]))})
+        elif k == "setX0":
+            ops.append({"k": k, "x": [fr(dyadic(rng, -4, 4)) for _ in range(n)]})
+        elif k == "setBoth":
+            ops.append({"k": k, "x": [fr(dyadic(rng, -4, 4)) for _ in range(n)], "t": fr(rng.choice([t0, dyadic(rng, -2, 2, 4)]))})
+        elif k == "solve_determ" and rng.random() < 0.05:
+            ops.append({"k": k, "t": {"none": True}, "container": "None"})
+        else:
+            op = dict(targ(), k=k, full_output=rng.random() < 0.5)
+            if k == "integrate2":
+                op["method"] = rng.choice(METHODS)
+            ops.append(op)
+
+    def coef():
+        return [fr(dyadic(rng, -4, 2)), fr(dyadic(rng, -1, 1, 4)), fr(dyadic(rng, -1, 1, 4))]
+    return {"kind": "fakesession", "x0": [fr(dyadic(rng, -4, 4)) for _ in range(n)], "c": [fr(dyadic(rng, -3, 3)) for _ in range(n)],
+            "t0": fr(t0), "aliased": {k: rng.random() < 0.5 for k in INTEGRATORS}, "eigA": coef(), "eigB": coef(), "ops": ops}
+
+
+def run_fake_session(case):
+    import scipy.integrate
+    from pygom import SimulateOde, Transition
+    from .. import bootstrap
+    tags, mism = ["fakesession"], []
+    n = len(case["x0"])
+    c = [float(Fraction(v)) for v in case["c"]]
+    A = [float(Fraction(v)) for v in case["eigA"]]
+    B = [float(Fraction(v)) for v in case["eigB"]]
+    lr = leanio.driver().call({"op": "session", "aliased": case["aliased"], "copyOnRead": True, "c": case["c"], "eigA": case["eigA"],
+                               "eigB": case["eigB"], "x0": case["x0"], "t0": case["t0"],
+                               "ops": [{k: v for k, v in op.items() if k not in ("container", "full_output")} for op in case["ops"]]})
+    st = ["x%d" % i for i in range(n)]
+    pr = ["c%d" % i for i in range(n)]
+    model = bootstrap.fast_backend(SimulateOde(state=st, param=pr, ode=[Transition(origin=a, equation=b, transition_type="ODE")
+                                                                       for a, b in zip(st, pr)]))
+    model.parameters = dict(zip(pr, c))
+    model.initial_values = (np.array([float(Fraction(v)) for v in case["x0"]]), float(Fraction(case["t0"])))
+    model.jacobian_T = lambda t, x, *a: np.diag([A[0] + A[1] * t + A[2] * x[0], B[0] + B[1] * t + B[2] * x[0]])
+    log, outs = [], []
+    real_ode, real_odeint = scipy.integrate.ode, scipy.integrate.odeint
+    try:
+        scipy.integrate.ode = make_fake_ode(c, case["aliased"], log)
+        scipy.integrate.odeint = make_fake_odeint(c, log)
+        for op in case["ops"]:
+            k = op["k"]
+            try:
+                if k == "setT0":
+                    model.initial_time = float(Fraction(op["t"]))
+                elif k == "setX0":
+                    model.initial_state = np.array([float(Fraction(v)) for v in op["x"]])
+                elif k == "setBoth":
+                    model.initial_values = (np.array([float(Fraction(v)) for v in op["x"]]), float(Fraction(op["t"])))
+                else:
+                    targ = py_time_arg(op)
+                    if k == "integrate":
+                        r = model.integrate(targ, full_output=op["full_output"])
+                        outs.append(r[0] if op["full_output"] else r)
+                    elif k == "solve_determ":
+                        outs.append(model.solve_determ(targ))
+                    else:
+                        r = model.integrate2(targ, full_output=op["full_output"], method=op["method"])
+                        outs.append(r[0] if op["full_output"] else r)
+                    tags.append("fakesession:op=%s" % k)
+            except Exception as exc:
+                if k in ("setT0", "setX0", "setBoth"):
+                    raise
+                outs.append(type(exc).__name__)
+                tags.append("fakesession:error=%s" % type(exc).__name__)
+    finally:
+        scipy.integrate.ode = real_ode
+        scipy.integrate.odeint = real_odeint
+    if lr.get("err") is not None or "outputs" not in lr:
+        mism.append({"what": "fakesession:driver", "detail": str(lr)[:500]})
+        return {"nontrivial": False, "mismatches": mism, "violations": [], "tags": tags}
+    # everything returned is read only now, after all later operations
+    py = [o if isinstance(o, str) else rows_to_fr(o) for o in outs]
+    le = [o["err"] if "err" in o else o["rows"] for o in lr["outputs"]]
+    if py != le:
+        j = next((i for i, (a, b) in enumerate(zip(py, le)) if a != b), min(len(py), len(le)))
+        mism.append({"what": "fakesession:outputs", "detail": "solve #%d: python %s ; lean model %s" % (
+            j, py[j] if j < len(py) else None, le[j] if j < len(le) else None)})
+    final = (rows_to_fr(model.initial_state)[0], fr(Fraction(float(model.initial_time))))
+    if final != (lr["x0"], lr["t0"]):
+        mism.append({"what": "fakesession:final-values", "detail": "python %s ; lean model %s" % (final, (lr["x0"], lr["t0"]))})
+    ot = getattr(model, "_odeTime", "absent")
+    if not isinstance(ot, str):
+        pt = None if ot is None else [fr(Fraction(float(v))) for v in np.asarray(ot, dtype=float)]
+        if pt != lr["odeTime"]:
+            mism.append({"what": "fakesession:odeTime", "detail": "python _odeTime %s ; lean model %s" % (pt, lr["odeTime"])})
+    nsolve = sum(1 for o in py if not isinstance(o, str))
+    return {"nontrivial": nsolve >= 2 and not mism, "mismatches": mism, "violations": [], "tags": tags,
+            "sample": {"ops": case["ops"][:6], "outputs": le[:3]}}
 
 
 # ------------------------------------------------------------------------------------------------
@@ -1462,4 +1591,6 @@ def run_case(case):
         return run_fake(case)
     if case["kind"] == "session":
         return run_session(case)
+    if case["kind"] == "fakesession":
+        return run_fake_session(case)
     return run_runtime(case)
